@@ -845,7 +845,7 @@ class Item:
         self.toks[c + len(ins)].ws = "\n"
         self.log.append({"kind": "contract", "at": "loop-end:%d" % k, "text": text.strip()})
 
-    def inline_helpers(self, repo, names):
+    def inline_helpers(self, repo, names, steps=None):
         """Calls `NAME(args)` to a free function NAME of the same source file -- one the unit does not know (a helper a
         change introduced) -- are replaced by the helper's body as a block expression:
             { let __h1 = a1; let __h2 = a2; let p1: T1 = __h1; let p2: T2 = __h2; { body } }
@@ -858,10 +858,29 @@ class Item:
             return 0
         done = 0
         for name in names:
-            try:
-                st, o, c = locate(ftoks, ["fn " + name])
-            except LostAnchor:
-                continue
+            in_impl = False
+            st = None
+            if steps and len(steps) > 1:
+                # a method / associated function of the same impl block as the item (`self.name(..)` / `Self::name(..)`)
+                try:
+                    st, o, c = locate(ftoks, list(steps[:-1]) + ["fn " + name])
+                    in_impl = True
+                except LostAnchor:
+                    st = None
+            if st is None:
+                try:
+                    st, o, c = locate(ftoks, ["fn " + name])
+                except LostAnchor:
+                    # anywhere in the file (e.g. another impl block of the same type), if the name is unique there
+                    occ = [q for q in range(len(ftoks) - 1) if ftoks[q].s == "fn" and ftoks[q + 1].s == name]
+                    if len(occ) != 1:
+                        continue
+                    st = occ[0]
+                    o = _body_open(ftoks, st, len(ftoks))
+                    if o is None:
+                        continue
+                    c = match_close(ftoks, o)
+                    in_impl = True
             # signature tokens: fn NAME ( params ) [-> T] {
             k = st
             while ftoks[k].s != "fn":
@@ -897,6 +916,12 @@ class Item:
             if cur:
                 params.append(cur)
             plist = []
+            has_self = False
+            if params and texts(params[0]) and texts(params[0])[-1] == "self" and all(x in ("&", "mut", "self") or x.startswith("'") for x in texts(params[0])):
+                if not in_impl or texts(params[0]) == ["self"] or texts(params[0]) == ["mut", "self"]:
+                    continue          # by-value receivers move `self`: not inlined
+                has_self = True
+                params = params[1:]
             for pr in params:
                 tx = texts(pr)
                 mut = False
@@ -914,7 +939,18 @@ class Item:
             T = self.toks
             i = len(T) - 2
             while i >= 1:
-                if T[i].s == name and T[i + 1].s == "(" and T[i - 1].s not in (".", ":", "fn") and T[i].line != 0:
+                hit = False
+                start = i
+                if T[i].s == name and T[i + 1].s == "(" and T[i].line != 0:
+                    if has_self:
+                        hit = i >= 2 and T[i - 1].s == "." and T[i - 2].s == "self" and (i < 3 or T[i - 3].s != ".")
+                        start = i - 2
+                    elif in_impl:
+                        hit = i >= 3 and T[i - 1].s == ":" and T[i - 2].s == ":" and T[i - 3].s == "Self"
+                        start = i - 3
+                    else:
+                        hit = T[i - 1].s not in (".", ":", "fn")
+                if hit:
                     ac = match_close(T, i + 1)
                     args = []
                     cur = []
@@ -941,7 +977,9 @@ class Item:
                     for n, (mut, pn, ty) in enumerate(plist):
                         new += tokenize(" let %s%s: %s = __h%d;" % ("mut " if mut else "", pn, ty, n + 1), line0=line)
                     new += [Tok((t.ws or " ") if j == 0 else t.ws, t.s, t.line) for j, t in enumerate(body)] + [Tok(" ", "}", line)]
-                    T[i:ac + 1] = new
+                    new[0].ws = T[start].ws or " "
+                    T[start:ac + 1] = new
+                    i = start
                     done += 1
                 i -= 1
             if done:
